@@ -164,6 +164,43 @@ def run(ctx):
             return a.num_iter == b.num_iter and np.array_equal(a.sigma, b.sigma) and np.array_equal(a.v, b.v)
         return abs(a.num_iter - b.num_iter) <= 1 and np.allclose(a.v, b.v, rtol=1e-9, atol=1e-9)
 
+    def alias_solve(inst, form, ddp, inp0, kind):
+        methods = ["vi", "pi", "mpi"] + ([] if "sparse" in kind else ["lp"])
+        v1 = np.array([float(rng.randrange(-5, 6)) for _ in range(inst.n)]); v2 = v1[::-1].copy() + 1.0
+        snap = c09.snapshot_args(form.args)
+
+        def run_calls(d, K):
+            for mth in methods:
+                for tag, vv in (("v1#a", v1), ("v2#b", v2), ("None#c", None)):
+                    res = d.solve(method=mth, v_init=None if vv is None else vv, max_iter=40 if mth != "lp" else None)
+                    K.keep("solve(%s).v %s" % (mth, tag), res.v); K.keep("solve(%s).sigma %s" % (mth, tag), res.sigma)
+                    K.keep("solve(%s).mc.P %s" % (mth, tag), res.mc.P)
+            return K
+        K = run_calls(ddp, c09.Keeper())
+        ow = K.overwritten()
+        if ow:
+            ctx.fail("result_overwritten_by_later_call", "an array of an earlier DPSolveResult was changed by a later solve on the same object: " + "; ".join(ow[:4]),
+                     dict(inp0, v1=v1, v2=v2, overwritten=ow), None, None)
+        attrs = [("ddp.R", ddp.R), ("ddp.Q", ddp.Q), ("v1", v1), ("v2", v2)] + \
+            [("constructor argument %d" % i_, a_) for i_, a_ in enumerate(form.args) if isinstance(a_, np.ndarray) or hasattr(a_, "toarray")]
+        al = K.aliases(attrs)
+        if al:
+            ctx.fail("result_aliasing", "results of different solve calls (or a result and an argument / stored attribute) share memory: %r" % (al[:3],),
+                     dict(inp0, pairs=al[:6]), None, None)
+        expected = [(nm, c) for nm, _, c in K.items]
+        K.scribble()
+        if not np.array_equal(v2, v1[::-1] + 1.0):
+            ctx.fail("result_aliases_internal_state", "a returned array aliases v_init", inp0, None, None)
+        for who, d in (("same object", ddp), ("fresh object", DiscreteDP(*form.args))):
+            K2 = run_calls(d, c09.Keeper())
+            wrong = [nm for (nm, c), (_, _, c2) in zip(expected, K2.items) if c.shape != c2.shape or not np.allclose(c, c2, rtol=1e-12, atol=1e-12)]
+            if wrong:
+                ctx.fail("result_aliases_internal_state", "after the caller overwrote returned arrays, the same solve calls on the %s give other values: %s" % (who, "; ".join(wrong[:4])),
+                         dict(inp0, v1=v1, v2=v2, wrong=wrong, object=who), None, None)
+        if not c09.args_unchanged(form.args, snap):
+            ctx.fail("result_aliases_internal_state", "overwriting returned arrays changed a constructor argument", inp0, None, None)
+        ctx.count("alias:keep-and-recheck"); ctx.count("alias:scribble same+fresh"); ctx.count("alias:shares_memory")
+
     def harden_solve(inst, form, ddp, inp0, kind, fterm, check_opt):
         sparse = "sparse" in kind
         methods = ["vi", "pi", "mpi"] + ([] if sparse else ["lp"])
@@ -279,6 +316,9 @@ def run(ctx):
                 ctx.fail("argument_mutated", "DiscreteDP / solve modified a constructor argument", dict(inp0, dress=label), None, None)
             ctx.count("dress:" + label)
 
+    corp = c09.corpus()
+    corp_orders = {id(ci): orders for ci, orders in corp}
+    insts = [ci for ci, _ in corp] + insts
     for ii, inst in enumerate(insts):
         vstar = oracle_opt(inst)
         ctx.count("n=%d" % inst.n); ctx.count("m=%d" % inst.m); ctx.count("beta=%s" % inst.beta); ctx.count("chain:" + inst.tag)
@@ -291,10 +331,13 @@ def run(ctx):
         unique = all(len(a) == 1 for a in argstar)
         ctx.count("optimal policy unique" if unique else "optimal policy not unique (ties)")
         kinds = FORM_KINDS if (thorough or ii % 3 == 0) else ["product", rng.choice(FORM_KINDS[1:3]), rng.choice(FORM_KINDS[2:])]
+        plan = [(k_, None) for k_ in kinds]
+        if id(inst) in corp_orders:
+            plan = [(k_, o_) for o_ in corp_orders[id(inst)] for k_ in ("sa_shuffled", "sa_sparse_shuffled")] + [("product", None)]
         values_seen = {}
-        for kind in kinds:
+        for kind, order_ in plan:
             try:
-                form = make_form(inst, kind, rng)
+                form = make_form(inst, kind, rng, order=order_)
                 ddp = build(form)
                 ctx.count("form:" + kind)
                 if kind != "product":
@@ -387,6 +430,9 @@ def run(ctx):
                                      dict(inp0, method=mth, v_init=vint, v_form=fname),
                                      {"v": res.v, "sigma": res.sigma, "num_iter": res.num_iter}, {"v": ref.v, "sigma": ref.sigma, "num_iter": ref.num_iter})
                         ctx.count("argument form v_init:" + fname)
+
+                # ---------------- result aliasing across solve calls (keep-and-recheck, scribble, shares_memory)
+                alias_solve(inst, form, ddp, inp0, kind)
 
                 # ---------------- hardening audit (dress/dtype, state and sequences, non-mutation, optional/falsy arguments)
                 if thorough or ii % 6 == 0:
